@@ -42,11 +42,17 @@ def part_sets(which):
     return tla_set(tla_set('"%s"' % t for t in s) for s in ss)
 
 
-def mesh_cfg(fam, dim, cells, psets, ptn, indents, muts):
-    return ("SPECIFICATION Spec\nCONSTANTS Fam = \"%s\" Dim = %d CellCounts = %s PartSets = %s PtnCfgs = %s Indents = %s Muts = %s\n"
+def mesh_cfg(fam, dim, cells, psets, ptn, indents, muts, kinds=(0,)):
+    return ("SPECIFICATION Spec\nCONSTANTS Fam = \"%s\" Dim = %d CellCounts = %s PartSets = %s PtnCfgs = %s Indents = %s ChartKinds = %s Muts = %s\n"
             "INVARIANTS DocValid GrammarSane MutSane Emit\nCHECK_DEADLOCK FALSE\n"
             % (fam, dim, tla_set(map(str, cells)), psets, tla_set(map(str, ptn)),
-               tla_set("TRUE" if b else "FALSE" for b in indents), "TRUE" if muts else "FALSE"))
+               tla_set("TRUE" if b else "FALSE" for b in indents), tla_set(map(str, kinds)), "TRUE" if muts else "FALSE"))
+
+
+def chart_kinds(dim):
+    """chart kinds of spec/MeshFile.tla beyond the default 0 (Circle / Sphere): 2D Bezier open/closed; 3D Extrude of a
+    Circle / Bezier with generic angles, both gimbal-lock pitches, explicit zero vectors, identity rotation"""
+    return (1, 2) if dim == 2 else (1, 2, 3, 4, 5)
 
 
 def tlc_jobs(tier):
@@ -54,6 +60,13 @@ def tlc_jobs(tier):
     jobs = []
     for fam, dim in SHAPES:
         tag = "%s%d" % (fam, dim)
+        ck = chart_kinds(dim)
+        if tier == "thorough":
+            jobs.append(("MeshFile", tag + " chart docs", mesh_cfg(fam, dim, [1, 2], part_sets([("A",), ("B",), ("E",), ("B", "D")]), [0, 1], [True, False], False, ck)))
+            jobs.append(("MeshFile", tag + " chart muts", mesh_cfg(fam, dim, [1], part_sets([("A",), ("B",), ("E",)]), [0], [True, False], True, ck)))
+        else:
+            jobs.append(("MeshFile", tag + " chart docs", mesh_cfg(fam, dim, [1], part_sets([("B",), ("E",)]), [0], [True, False], False, ck)))
+            jobs.append(("MeshFile", tag + " chart muts", mesh_cfg(fam, dim, [1], part_sets([("A",)]), [0], [True], True, ck)))
         if tier == "thorough":
             # every document; every mutation of every part set (2 cells: two partitions, indented; 1 cell: one partition, flat)
             jobs.append(("MeshFile", tag + " docs", mesh_cfg(fam, dim, [1, 2], part_sets("all"), [0, 1, 2], [True, False], False)))
@@ -371,7 +384,8 @@ def run(chk):
     files = shipped(chk.tier)
     fcases = file_cases(files)
     scases = smut_cases(files, 150 if thorough else 14, rng)
-    fz_docs = [docs[k] for k in sorted(docs) if k.endswith("-2-i-p") or k.endswith("BC-2-f-e")][:8]
+    fz_docs = ([docs[k] for k in sorted(docs) if k.endswith("-2-i-p-k0") or k.endswith("BC-2-f-e-k0")][:8] +
+               [docs[k] for k in sorted(docs) if "-B-0-i-e-k" in k and not k.endswith("k0")][:6])
     zcases = fuzz_cases(files, fz_docs, 150000 if thorough else 10000, rng)
 
     stats = {}
@@ -415,7 +429,10 @@ def run(chk):
                       "mutation_kinds": sorted(set(c["m"]["kind"] for c in mut_cases))})
     chk.rule = ("G: every state of spec/MeshFile.tla = (document, single structured mutation): documents = {quad, tria, hexa, tetra} x {1,2 cells} x "
                 "every set of <= 2 mesh parts of 5 kinds (vertex list / facet with own topology + chart + attribute / cell closure / cell closure with "
-                "topology and 2 attributes / duplicated vertex) x {0,1,2} partitions x indentation x topology=parent variant; mutations = truncation after "
+                "topology and 2 attributes / duplicated vertex) x {0,1,2} partitions x indentation x topology=parent variant, plus documents whose "
+                "atlas holds every other chart kind (2D: open parameterised / closed negatively oriented Bezier spline; 3D: Extrude of a Circle / "
+                "Bezier with origin, offset and yaw-pitch-roll angles: generic, both gimbal-lock pitches +-1/4 with non-zero yaw and roll, explicit "
+                "zero vectors, identity) -- the written text must be the canonical form of the rotation the angles denote; mutations = truncation after "
                 "every line, delete/duplicate every counted line, delete every open/close line, +-1 on every declared count, size arity, every dim "
                 "attribute to every other value, mesh type strings, every vertex/element/mapping index to bound and -1, unknown markup / stray "
                 "terminator / stray content at every position, every attribute removed, unknown attribute, closed markup, token count / non-number / "
@@ -433,7 +450,9 @@ def run(chk):
         "a declared count is an allocation request: std::bad_alloc / std::length_error / a refused allocation (sanitizer max_allocation_size_mb=1024, "
         "RLIMIT_AS 6 GB) is classified as `resource` and accepted as a rejection in the byte-level part (Total), not in the structured part",
         "termination by a FEAT assertion message (XASSERT) counts as a report (DESIGN 3.3) in the byte-level part and for truncated graph buffers",
-        "Permutation has no serialisation API in the pinned tree; charts other than Circle/Sphere are covered only through the shipped files",
+        "Permutation has no serialisation API in the pinned tree; SurfaceMesh charts are covered only through the shipped files",
+        "Extrude angles of generated documents are multiples of 1/8 revolution with |yaw|,|roll| < 1/2, |pitch| <= 1/4 and roll -+ yaw != 0 at gimbal "
+        "lock, so that the canonical yaw-pitch-roll triple printed with 6 digits is exact",
     ]
 
 
